@@ -14,10 +14,11 @@ Theorem C01_val_implies_ana_partial : forall x, WellFormedMath x -> val_math x =
 Proof. exact MathWF.val_implies_ana_partial. Qed.
 Print Assumptions C01_val_implies_ana_partial.
 
-(** the same whether or not the two proposed repairs of the arity pass (fixes/C01-mathml-arity.diff: fx;
-    fixes/C04-mathml-qualifier-children.diff: q) are in the tree *)
-Theorem C01_val_implies_ana_partial_gen : forall q fx x, WellFormedMath x ->
-  val_math_env_gen2 q fx std_vars std_units x = [] /\ ana x <> None.
+(** the same for every value of the repair switches: validator cf (064d865), df (fixes/C01-diff-operand-ci.diff),
+    q (a5130f0), fx (054da43); analyser / generator F (064d865, fixes/C01-analyser-optional-children.diff,
+    fixes/C01-generator-null-operand.diff) *)
+Theorem C01_val_implies_ana_partial_gen : forall cf df q fx F x, WellFormedMath x ->
+  val_math_env_gen3 cf df q fx std_vars std_units x = [] /\ ana_gen F x <> None.
 Proof. exact MathWF.val_implies_ana_partial_gen. Qed.
 Print Assumptions C01_val_implies_ana_partial_gen.
 
@@ -56,7 +57,7 @@ Proof.
 Qed.
 Print Assumptions C01_val_implies_ana_refuted.
 
-Theorem C01_gap_refutes_contract : forall root s, gap root s -> val_now root = [] /\ ana root = None.
+Theorem C01_gap_refutes_contract : forall root s, gap root s -> val_now root = [] /\ ana_gen afix_none root = None.
 Proof. exact MathProofs.gap_is_refutation. Qed.
 Print Assumptions C01_gap_refutes_contract.
 
@@ -77,9 +78,34 @@ Theorem C01_qualifier_fix_closes :
 Proof. exact MathProofs.qualifier_fix_closes. Qed.
 Print Assumptions C01_qualifier_fix_closes.
 
+(** Commit 064d865 (validator and analyser both take the first non-comment child of ci) closes the comment-first witness:
+    still accepted, now read. *)
+Theorem C01_ci_comment_fix_closes :
+  val_math_env_gen3 true false false false std_vars std_units w_ci_comment_first = []
+  /\ ana_gen afix_ci w_ci_comment_first <> None
+  /\ ana_gen afix_none w_ci_comment_first = None.
+Proof. exact MathProofs.ci_comment_fix_closes. Qed.
+Print Assumptions C01_ci_comment_fix_closes.
+
+(** fixes/C01-diff-operand-ci.diff: the validator rejects diff applied to a non-ci. *)
+Theorem C01_diff_ci_fix_closes : val_dfixed w_diff_non_ci <> [] /\ val_now w_diff_non_ci = [].
+Proof. exact MathProofs.diff_ci_fix_closes. Qed.
+Print Assumptions C01_diff_ci_fix_closes.
+
+(** With every repair, committed and proposed, each of the fifteen witnesses is either rejected by the validator or read
+    by the analyser (and printable by the generator) without a null dereference. *)
+Theorem C01_all_repairs_close :
+  closed w_min_no_operand /\ closed w_max_no_operand /\ closed w_rem_no_operand /\ closed w_min_one_operand
+  /\ closed w_diff_non_ci /\ closed w_bare_ci /\ closed w_not_equation_min /\ closed w_empty_piecewise
+  /\ closed w_ci_comment_first /\ closed w_apply_without_operand /\ closed w_unvalidated_degree
+  /\ closed w_unvalidated_bvar /\ closed w_ci_empty_in_bvar /\ closed w_cn_empty_in_degree /\ closed w_cn_sep_in_degree.
+Proof. exact MathProofs.all_repairs_close. Qed.
+Print Assumptions C01_all_repairs_close.
+
 (** The validator's own passes are null-safe on every tree: each mathmlChildNode(...)-> it performs is preceded by
     the count test that makes the child exist. *)
-Theorem C01_val_null_safe : forall q fx vars units root, ~ In V_NULL_DEREF (val_math_env_gen2 q fx vars units root).
+Theorem C01_val_null_safe : forall cf df q fx vars units root,
+  ~ In V_NULL_DEREF (val_math_env_gen3 cf df q fx vars units root).
 Proof. exact MathProofs.val_null_safe. Qed.
 Print Assumptions C01_val_null_safe.
 
@@ -99,17 +125,26 @@ Proof. exact MathProofs.stod_real_partial. Qed.
 Print Assumptions C01_stod_real_partial.
 
 (** ... but the validator also accepts a variable NAME as initial_value, and never checks the range of a real:
-    the exception leaves Analyser::analyseModel (family K-stod). *)
+    before 82725c7 (sf = false) the exception left Analyser::analyseModel (family K-stod). *)
 Theorem C01_stod_unguarded_refuted :
   (initial_value_accepted std_vars "y" = true /\ stod "y" = StodInvalidArgument
-   /\ val_now w_pow_iv_name = [] /\ pow_math_env std_vars [("z", "y")] w_pow_iv_name = Some StodInvalidArgument)
+   /\ val_now w_pow_iv_name = [] /\ pow_math_env_gen afix_none false std_vars [("z", "y")] w_pow_iv_name = Some StodInvalidArgument)
   /\ (initial_value_accepted std_vars "1e400" = true /\ stod "1e400" = StodOutOfRange
-      /\ pow_math_env std_vars [("z", "1e400")] w_pow_iv_name = Some StodOutOfRange)
-  /\ (val_now w_pow_cn_range = [] /\ pow_math_env std_vars [] w_pow_cn_range = Some StodOutOfRange).
+      /\ pow_math_env_gen afix_none false std_vars [("z", "1e400")] w_pow_iv_name = Some StodOutOfRange)
+  /\ (val_now w_pow_cn_range = [] /\ pow_math_env_gen afix_none false std_vars [] w_pow_cn_range = Some StodOutOfRange).
 Proof. exact MathProofs.stod_unguarded_refuted. Qed.
 Print Assumptions C01_stod_unguarded_refuted.
 
-Example C01_stod_nonvacuous : pow_math_env std_vars [("z", "2")] w_pow_iv_name = None /\ ana w_pow_iv_name <> None.
+(** Commit 82725c7 (convertToDouble instead of std::stod): with the repair the evaluation of an exponent never throws,
+    whatever the initial values and the document. *)
+Theorem C01_stod_fix_total :
+  (forall ivs a avail e, power_value true ivs a avail <> PvThrow e)
+  /\ (forall F vars ivs root, pow_math_env_gen F true vars ivs root = None).
+Proof. exact MathProofs.stod_fix_total. Qed.
+Print Assumptions C01_stod_fix_total.
+
+Example C01_stod_nonvacuous :
+  pow_math_env_gen afix_none false std_vars [("z", "2")] w_pow_iv_name = None /\ ana_gen afix_none w_pow_iv_name <> None.
 Proof. exact MathProofs.pow_ok_example. Qed.
 Print Assumptions C01_stod_nonvacuous.
 
